@@ -77,6 +77,49 @@ def install():
     return count
 
 
+_LOCK_SITES = None
+
+
+def real_lock_sites():
+    """(owner object, attribute name, original) for every real threading lock/event found as a module global
+    or a class attribute of a bromelia module (created at import time, before the shims exist)."""
+    global _LOCK_SITES
+    if _LOCK_SITES is None:
+        import threading
+        kinds = (type(threading.Lock()), type(threading.RLock()), threading.Event, threading.Condition,
+                 threading.Semaphore, threading.Barrier)
+        sites = []
+        for name, mod in list(sys.modules.items()):
+            if not (name == "bromelia" or name.startswith("bromelia.")) or mod is None:
+                continue
+            for k, v in list(mod.__dict__.items()):
+                if isinstance(v, kinds):
+                    sites.append((mod, k, v))
+                elif isinstance(v, type) and getattr(v, "__module__", "") == name:
+                    for ck, cv in list(vars(v).items()):
+                        if isinstance(cv, kinds):
+                            sites.append((v, ck, cv))
+        _LOCK_SITES = sites
+    return _LOCK_SITES
+
+
+def fresh_primitives():
+    """Give every import-time lock/event of the library a shim instance for the coming execution."""
+    import threading
+    for owner, attr, orig in real_lock_sites():
+        if isinstance(orig, threading.Event):
+            setattr(owner, attr, shims.Event())
+        elif isinstance(orig, threading.Barrier):
+            setattr(owner, attr, shims.Barrier(orig.parties))
+        else:
+            setattr(owner, attr, shims.Lock())
+
+
+def restore_primitives():
+    for owner, attr, orig in real_lock_sites():
+        setattr(owner, attr, orig)
+
+
 def uninstall():
     while _ORIGINALS:
         d, k, v = _ORIGINALS.pop()
